@@ -463,15 +463,114 @@ def _corr_cases(rng, tier):
     return out
 
 
+def _sweep_cases(rng, tier):
+    from core import gen_tensor
+    n = {"quick": 100, "thorough": 1500, "search": 0}[tier]
+    out = []
+    for _ in range(n):
+        N = rng.choice([2, 3, 3, 4, 5])
+        shape = [rng.randint(2, 4) for _ in range(N)]
+        stream = "float" if rng.random() < 0.8 else "int"
+        out.append({"kind": "sweep", "t": gen_tensor(rng, shape, fmt=[("tt", None)] * N, rmax=4, stream=stream, p_rank1=0.1).to_json(),
+                    "eps": rng.choice([0.0, 1e-12, 10 ** rng.uniform(-3, -0.2), 10 ** rng.uniform(-3, -0.2)]),
+                    "rmax": rng.choice([None, None, None, 1, 2, 3])})
+    return out
+
+
+def _run_sweep(ctx, case):
+    """round_tt on TT cores: the Lean sweep (Model/RoundTT.sweepRev, the subject of C04.roundTT_error_eq / roundTT_within_eps) is run on
+    the state entering the sweep with the recorded SVD answers and compared core-for-core with the implementation; the hypotheses
+    of the theorems (left-orthonormal state, kernel contract of every answer) and their conclusion are checked on the real run."""
+    import numpy as np, torch
+    from core import PT, q, safe, from_tn, parse_tensor, cmp_struct
+    t = PT.from_json(case["t"])
+    ctx.case(("sweep", t.sig(), case["rmax"], case["eps"] == 0.0), True,
+             {"op": "model correspondence: round_tt sweep vs Model/RoundTT.sweepRev with recorded SVD answers", "t": t.describe(),
+              "eps": case["eps"], "rmax": case["rmax"]})
+    ctx.count("corr:sweep")
+    if not (getattr(ctx, "use_model", False) and not getattr(ctx, "search_only", False)):
+        return
+    tt = t.to_tn()
+    x0 = tt.torch().detach().clone()
+    rec, snap = [], []
+    orig_svd = torch.linalg.svd
+
+    def svd_w(A, *a, **k):
+        if not snap:
+            snap.append([c.detach().clone() for c in tt.cores])
+        out = orig_svd(A, *a, **k)
+        rec.append((A.detach().clone(), out[0].detach().clone(), out[1].detach().clone(), out[2].detach().clone()))
+        return out
+    torch.linalg.svd = svd_w
+    try:
+        kw = {} if case["rmax"] is None else {"rmax": case["rmax"]}
+        r = safe(lambda: tt.round_tt(case["eps"], **kw))
+    finally:
+        torch.linalg.svd = orig_svd
+    if r[0] == "err":
+        ctx.oracle("round_tt raised %s: %s" % (r[1], r[2]), case); return
+    N = t.N
+    if len(rec) != N - 1 or not snap:
+        ctx.corr("round_tt made %d SVD calls on a %d-mode TT tensor (the model's sweep has %d steps)" % (len(rec), N, N - 1), case); return
+    cores0 = snap[0]
+    # ---- hypothesis chainLO: every core left of the last is left-orthonormal in the state entering the sweep
+    for c in cores0[:-1]:
+        L = c.reshape(-1, c.shape[-1])
+        if float((L.T @ L - torch.eye(L.shape[1], dtype=L.dtype)).abs().max()) > 1e-9:
+            if L.shape[0] < L.shape[1]:
+                ctx.count("skipped:a left unfolding wider than tall cannot be left-orthonormal (rank-deficient bond)"); return
+            ctx.corr("state entering the sweep is not left-orthonormal (hypothesis chainLO of C04.roundTT_within_eps)", case); return
+    nrm2 = float((cores0[-1] ** 2).sum())
+    d2 = case["eps"] ** 2 * nrm2 / max(1, N - 1)
+    parts = []
+    tails = 0.0
+    for (A, U, S, Vh), mu in zip(rec, range(N - 1, 0, -1)):
+        k = S.shape[0]
+        sc = max(1.0, float(S[0]))
+        if float(S[0]) < 1e-13:
+            ctx.count("skipped:zero matrix special case"); return
+        ok = float(((U * S) @ Vh - A).abs().max()) <= 1e-10 * sc and float((U.T @ U - torch.eye(k, dtype=U.dtype)).abs().max()) <= 1e-10 \
+            and float((Vh @ Vh.T - torch.eye(k, dtype=U.dtype)).abs().max()) <= 1e-10
+        if not ok:
+            ctx.corr("kernel contract SVDokM does not hold for a recorded torch.linalg.svd call", case); return
+        cs = torch.cumsum(torch.flip(S ** 2, [0]), 0).numpy()
+        if d2 > 0 and np.any(np.abs(cs - d2) <= 1e-10 * max(1.0, float(cs[-1]))):
+            ctx.count("discarded:near-tie"); return
+        if d2 == 0 and np.any((cs > 0) & (cs <= 1e-20 * max(1.0, float(cs[-1])))):
+            ctx.count("discarded:near-tie"); return
+        s_, r1_ = tt.cores[mu].shape[1], tt.cores[mu].shape[2]
+        rm = case["rmax"] if case["rmax"] is not None else 2147483647
+        parts.append("%d M %d %d %s %d %s %d %d %s" % (rm, U.shape[0], k, " ".join(q(v) for v in U.reshape(-1).numpy()), k,
+                                                     " ".join(q(v) for v in S.numpy()), s_, r1_, " ".join(q(v) for v in Vh.reshape(-1).numpy())))
+        rk = tt.cores[mu].shape[0]
+        tails += float((S[rk:] ** 2).sum())
+    ctx.count("hypotheses of roundTT_within_eps validated (chainLO, SVDokM)")
+    pt0 = PT([c.numpy() for c in cores0], [None] * N)
+    toks = ctx.drv().call("round_sweep %s %d %s %s" % (q(case["eps"]), N - 1, " ".join(parts), pt0.ser()))
+    if toks[0] != "ok":
+        ctx.corr("model round_sweep failed: %s" % " ".join(toks[:4]), case); return
+    mt = parse_tensor(toks, 1)[0]
+    d = cmp_struct(from_tn(tt), mt, False)
+    if d is not None:
+        ctx.corr("round_tt: implementation cores differ from the model sweep: %s" % d, case); return
+    # ---- the theorem's conclusion on the real output: ||T - round_tt(T)||^2 = sum of the discarded tails
+    err2 = float(((x0 - tt.torch()) ** 2).sum())
+    if abs(err2 - tails) > 1e-9 * max(nrm2, 1e-300) + 1e-24:
+        ctx.corr("||T - round_tt(T)||^2 = %.6g differs from the sum of discarded tails %.6g (C04.roundTT_error_eq)" % (err2, tails), case); return
+    ctx.count("sweep: cores and error identity agree")
+
+
 _orig_cases = cases
 _orig_run_case = run_case
 
 
 def cases(rng, tier):  # noqa: F811
-    return _orig_cases(rng, tier) + _corr_cases(rng, tier)
+    return _orig_cases(rng, tier) + _corr_cases(rng, tier) + _sweep_cases(rng, tier)
 
 
 def run_case(ctx, case):  # noqa: F811
+    if case.get("kind") == "sweep":
+        return _run_sweep(ctx, case)
     if case.get("kind") != "corr":
         return _orig_run_case(ctx, case)
     import numpy as np, torch
